@@ -7,14 +7,15 @@
 import json, os, shutil, subprocess, sys, tempfile, time
 
 VERIF = os.path.dirname(os.path.dirname(os.path.abspath(__file__)))
+BASE = os.environ.get("VERIF_BASE_REPO", "/repo")  # the tree the changes are applied to (a snapshot for background runs)
 ENV = dict(os.environ, GOFLAGS="-mod=mod", GOPROXY="off", GOSUMDB="off", GOTOOLCHAIN="local")
 
 
 def clone():
     tmp = tempfile.mkdtemp(prefix="verif_seed_")
     dst = os.path.join(tmp, "repo")
-    subprocess.run(["git", "clone", "-q", "--no-hardlinks", "/repo", dst], check=True)
-    d = subprocess.run(["git", "-C", "/repo", "diff", "HEAD"], capture_output=True, text=True).stdout
+    subprocess.run(["git", "clone", "-q", "--no-hardlinks", BASE, dst], check=True)
+    d = subprocess.run(["git", "-C", BASE, "diff", "HEAD"], capture_output=True, text=True).stdout
     if d.strip():
         subprocess.run(["git", "-C", dst, "apply"], input=d, text=True, check=True)
     return tmp, dst
